@@ -55,6 +55,10 @@ func deriveKey(passphrase []byte) []byte {
 
 // DecryptAES decrypts AES payload using the nonce and the passphrase
 func DecryptAES(nonce, payload, passphrase []byte) ([]byte, error) {
+	if len(nonce) != nonceLen {
+		// cipher.AEAD.Open panics on a nonce of the wrong length.
+		return nil, errors.New("invalid nonce length")
+	}
 	key := deriveKey(passphrase)
 	b, err := aes.NewCipher(key)
 	if err != nil {
